@@ -27,3 +27,5 @@ PROP['rule'] += ' Round-3 extension: on TBB and the serial backend, optionally t
 PROP['bins'].append(rc('C01_parallel_omp_limit3', 'harness/C01_parallel.cpp', 'omp-asan', flags=FL, env={'OMP_THREAD_LIMIT': '3'},
                        quick=dict(scale=0.5), thorough=dict(scale=5, seeds=4)))
 PROP['rule'] += ' Round-5 extension: the OpenMP binary also runs with OMP_THREAD_LIMIT=3 in its environment (the runtime then delivers smaller teams than initTaskingSystem(n) asked for; every index must still run exactly once).'
+
+PROP['rule'] += ' parallel_foreach also runs over ranges that are not one contiguous array (std::deque; reverse iterators of a vector; <= 20000 elements, whole container or sub-range): every element of the range exactly once, nothing that is not an element of it (checked by a per-element identity and under ASan).'
